@@ -16,7 +16,7 @@ import (
 )
 
 // Types that hold lazily decoded submessages in the default build.
-var lazyRoots = []string{gen.TLazyNode, gen.TLazyNode, gen.TOpaque, gen.TMixedOpq, gen.TReqLazy}
+var lazyRoots = []string{gen.TLazyNode, gen.TLazyNode, gen.TOpaque, gen.TMixedOpq, gen.TReqLazy, "pbsim.fx.AfterOneof"}
 
 // buildLazyWire generates content for a lazy-capable root type and returns its
 // wire encoding; with intensity > 0 the encoding is rewritten into a legal
